@@ -454,7 +454,17 @@ fn gen_pieces(rng: &mut Rng, len: usize, cfg: &GenCfg, first: bool, st: &mut Gen
             }
             PathMix::WithFromValue => {
                 if i == 0 && first {
-                    rng.pick(&[Path::AddLoop, Path::FromValue, Path::CollectVal, Path::ExtendRef, Path::CollectRef, Path::DefaultCtor])
+                    rng.pick(&[
+                        Path::AddLoop,
+                        Path::FromValue,
+                        Path::CollectVal,
+                        Path::ExtendRef,
+                        Path::CollectRef,
+                        Path::DefaultCtor,
+                        Path::CollectValLazy,
+                        Path::CollectRefLazy,
+                        Path::ExtendValLazy,
+                    ])
                 } else {
                     rng.pick(&[Path::AddLoop, Path::ExtendVal, Path::ExtendRef])
                 }
